@@ -299,11 +299,24 @@ def main(tier):
             evs.append({"e": "Conv", "cmd": " ".join(argv), "tool": tool, "min": 12, "inm": inm, "m": 12, "w": w,
                         "outw": parts[0], "outaw": parts[1], "outm": parts[2], "outam": parts[3], "rc": p.returncode})
             return evs
+        def run_sel(a):
+            # dgrep: the expression is input too and is read with the --from-locale names
+            dec, nov = locs[a]["lm"][11], locs[a]["lm"][10]
+            argv = ["dgrep"] + (["--from-locale", a] if a != "C" else []) + ["-i", "%d %B %Y", ">=1 %s 2012" % dec]
+            p = core.run([b.tool("dgrep")] + argv[1:], timeout=20, env={"LOCALE_FILE": locfile}, inp="4 %s 2012\n4 %s 2012\n" % (dec, nov))
+            outl = p.stdout.split("\n")
+            evs = [{"e": "Reset"}] + ([{"e": "SetI", "loc": a}] if a != "C" else [])
+            evs.append({"e": "Sel", "cmd": " ".join(argv), "tool": "dgrep", "min": 12, "inm": dec, "sel": ["4 %s 2012" % dec in outl, "4 %s 2012" % nov in outl],
+                        "want": [True, False], "rc": p.returncode})
+            return evs
         with ThreadPoolExecutor(max_workers=core.NCPU) as ex:
             pexecs = list(ex.map(run_pair, pjobs))
+            pexecs += list(ex.map(run_sel, [a for a in ins if a == "C" or locs[a]["lm"][11] != locs[a]["lm"][10]]))
         rep.notes["locale_pair_runs"] = len(pexecs)
 
         def lkey(bad, ex):
+            if bad.get("e") == "Sel":
+                return "locale dgrep --from-locale: expression operand not read with the input locale"
             if bad.get("e") == "Conv":
                 given = "+".join({"SetI": "--from-locale", "SetF": "--locale"}[e["e"]] for e in ex[1:-1]) or "no locale option"
                 return "locale %s with %s: wrong or missing names" % (bad.get("tool"), given)
